@@ -308,6 +308,7 @@ pub fn initial_images(g: &Geo, which: &[&str]) -> Vec<ImageSet> {
                 s.kinds = vec![GKind::Unalloc; ncl];
                 s.kinds[0] = GKind::Data;
                 s.short_l1 = true;
+                s.l1_tail_junk = true;
                 out.push(from_specs(&format!("{}-shortl1", g.name), "shortl1", vec![s]));
             }
             other => panic!("unknown image kind {}", other),
